@@ -188,20 +188,51 @@ func runCheck(repo, verif, prop, tier string, timeout, par int, keep bool) int {
 	}
 	sort.Strings(ks)
 	var results []*FuncResult
+	// The contracts that serve the property, and then, transitively, every verified contract and lemma of the
+	// repository that their proofs used at a call site: a caller is checked against its callee's contract, so whatever
+	// the callee's contract promises is part of what the property rests on, whichever properties the callee lists.
+	selected := map[string]bool{}
+	reliedBy := map[string]string{}
+	queue := append([]string{}, ks...)
 	for _, k := range ks {
-		r := w.verifyFunction(k, w.contracts[k])
-		// keep only the obligations of this property
+		selected[k] = true
+	}
+	for len(queue) > 0 {
+		k := queue[0]
+		queue = queue[1:]
+		ct := w.contracts[k]
+		r := w.verifyFunction(k, ct)
+		direct := contractServes(ct, prop)
 		var mine []*Obligation
 		for _, o := range r.Obls {
-			if contains(o.Props, prop) {
+			if direct && contains(o.Props, prop) {
+				mine = append(mine, o)
+			} else if !direct {
+				// relied upon by a function of this property: all of its obligations count
+				o.Props = append(append([]string{}, o.Props...), prop)
 				mine = append(mine, o)
 			}
 		}
 		r.Obls = mine
+		if !direct {
+			r.Notes = append(r.Notes, "under this property because the proof of "+shortKey(reliedBy[k])+" uses its contract")
+		}
 		results = append(results, r)
+		rel := append([]string{}, r.Relies...)
+		sort.Strings(rel)
+		for _, dep := range rel {
+			dc := w.contracts[dep]
+			if dc == nil || selected[dep] || (dc.Trusted && !dc.IsLemma) {
+				continue
+			}
+			selected[dep] = true
+			reliedBy[dep] = k
+			queue = append(queue, dep)
+		}
 	}
 	if prop == "C11" {
 		results = append(results, w.structuralC11())
+		results = append(results, w.structuralC11Frames())
 	}
 	if prop == "C05" {
 		results = append(results, w.structuralC05())
